@@ -14,6 +14,8 @@ import (
 	"strings"
 	"sync"
 
+	jdoc "github.com/jsightapi/jsight-schema-go-library/formats/json"
+	"github.com/jsightapi/jsight-schema-go-library/notations/jschema"
 	"github.com/jsightapi/jsight-schema-go-library/verifhook"
 
 	"verifharness/vh"
@@ -333,6 +335,85 @@ func render(r *rand.Rand, neg bool, d string, k int) string {
 	return s
 }
 
+// ---- reused caller buffers (public API): a document is what its bytes SAY when it is validated. A caller may read one
+// document after another into one []byte (json.New does not copy): the verdict for numeral y must be the verdict of a
+// fresh y although the same memory held numeral x (same length, same address) a moment ago. Schemas put a bound between
+// x and y, ask for precision, const or the integer / float kind, so that x and y get different verdicts.
+func plainDecimal(r *rand.Rand, n int) string {
+	for {
+		b := []byte(digits(r, n))
+		if n >= 3 && r.Intn(2) == 0 {
+			b[1+r.Intn(n-2)] = '.'
+		}
+		if r.Intn(3) == 0 {
+			b[0] = '-'
+			if len(b) > 1 && b[1] == '.' {
+				continue
+			}
+		}
+		s := string(b)
+		if rfcNumber.MatchString(s) {
+			return s
+		}
+	}
+}
+
+var rfcNumber = regexp.MustCompile(`^-?(0|[1-9][0-9]*)(\.[0-9]+)?$`)
+
+func reuseStream(rep *vh.Report, r *rand.Rand, n int) {
+	verdict := func(s *jschema.Schema, content []byte) string {
+		return vh.Recover(func() string {
+			if err := s.Validate(jdoc.New("d", content)); err != nil {
+				return "REJ"
+			}
+			return "ACC"
+		})
+	}
+	for i := 0; i < n; i++ {
+		l := 1 + r.Intn(9)
+		x, y := plainDecimal(r, l), plainDecimal(r, l)
+		ex, ey := parseExact(x), parseExact(y)
+		if ex == nil || ey == nil || len(x) != len(y) {
+			continue
+		}
+		hi, lo := x, y
+		if ex.val.Cmp(ey.val) < 0 {
+			hi, lo = y, x
+		}
+		schemas := []string{
+			hi + " // {min: " + hi + "}",
+			lo + " // {max: " + hi + ", exclusiveMaximum: true}",
+			x + " // {const: true}",
+			y + " // {const: true}",
+			"1 // {type: \"integer\"}",
+			"1.5 // {type: \"decimal\", precision: 1}",
+			"[" + x + ", " + y + "] // {type: \"enum\"}",
+		}
+		schemas[6] = x + " // {enum: [" + x + "]}"
+		for _, st := range schemas {
+			s := jschema.New("s", st)
+			if err := s.Check(); err != nil {
+				rep.Stat("reuse_schema_rejected")
+				continue
+			}
+			buf := []byte(x)
+			vx := verdict(s, buf)
+			copy(buf, y) // the caller reads the next document into the same memory
+			vy := verdict(s, buf)
+			fresh := verdict(jschema.New("s", st), []byte(y))
+			rep.Stat("reuse_cases")
+			if vx != fresh {
+				rep.Stat("reuse_verdicts_differ")
+			}
+			rep.Case("reuse:"+st+"|"+x+"|"+y, vx != fresh)
+			if vy != fresh {
+				rep.AddDiff(vh.Diff{Component: "C10-reused-buffer", Input: fmt.Sprintf("schema %q; buf := []byte(%q); Validate(json.New(buf)); copy(buf, %q); Validate(json.New(buf))", st, x, y),
+					Impl: "second verdict " + vy + " (first: " + vx + ")", Model: "verdict of " + y + " on fresh objects: " + fresh})
+			}
+		}
+	}
+}
+
 func Run(args []string) {
 	maxLen := vh.Pick(5, 7)
 	nRnd, nPairs, nNear, sample := vh.Pick(60000, 600000), vh.Pick(150000, 1500000), vh.Pick(60000, 600000), vh.Pick(400, 2000)
@@ -439,5 +520,6 @@ func Run(args []string) {
 	for _, d := range x.known {
 		rep.AddDiff(d)
 	}
+	reuseStream(rep, vh.NewRand(29), vh.Pick(4000, 40000))
 	rep.Finish()
 }
